@@ -379,8 +379,14 @@ func (g *Gen) configEntry() (structs.MessageType, any, string) {
 	name := g.pick(gSvcNames)
 	switch g.R.Intn(9) {
 	case 0:
-		e = &structs.ServiceConfigEntry{Kind: structs.ServiceDefaults, Name: name, Protocol: g.pick([]string{"tcp", "http", "http", "grpc"}),
+		sd := &structs.ServiceConfigEntry{Kind: structs.ServiceDefaults, Name: name, Protocol: g.pick([]string{"tcp", "http", "http", "grpc"}),
 			Meta: map[string]string{"m": g.pick(gVals)}}
+		if g.chance(3) {
+			// a destination outside the mesh (reached through terminating gateways): its name enters kind-service-names and
+			// the gateway-services rows of wildcard terminating gateways
+			sd.Destination = &structs.DestinationConfig{Addresses: []string{"dest." + name + ".example.com"}, Port: 443}
+		}
+		e = sd
 	case 1:
 		e = &structs.ProxyConfigEntry{Kind: structs.ProxyDefaults, Name: structs.ProxyConfigGlobal, Config: map[string]interface{}{"protocol": g.pick([]string{"tcp", "http"})}}
 	case 2:
